@@ -228,7 +228,7 @@ public:
     !std::is_convertible_v<typename Accessor::reference, value_type>)
   #endif
   constexpr mdarray (const mdspan<OtherElementType,OtherExtents,OtherLayoutPolicy,Accessor>& other)
-    : container_(construct_container<container_type>(other.size()))
+    : container_(construct_container<container_type>(mapping_type(other.mapping()).required_span_size()))
     , mapping_(other.mapping())
   {
     init_from_mdspan(other);
@@ -324,7 +324,7 @@ public:
     !std::is_convertible_v<Alloc, Al>)
   #endif
   constexpr mdarray (const mdspan<V,E,L,A>& other, const Alloc& a)
-    : container_(other.size(), a)
+    : container_(mapping_type(other.mapping()).required_span_size(), a)
     , mapping_(other.mapping())
   {
     init_from_mdspan(other);
